@@ -8,4 +8,6 @@ Extraction "model_valid.ml"
   RfcValid.rfc_valid RfcValid.rfc_types RfcValid.rfc_keys RfcValid.rfc_single RfcValid.rfc_keyuniq RfcValid.rfc_llval
   RfcValid.rfc_case RfcValid.rfc_mand RfcValid.rfc_mand_choice RfcValid.rfc_min RfcValid.rfc_max RfcValid.rfc_unique
   RfcValid.placed RfcValid.vschema_ok RfcValid.prune RfcValid.rules_hold RfcValid.no_empty_np
-  ValidateImpl.impl_validate ValidateImpl.impl_parse_validate ValidateImpl.erase ValidateImpl.mark_new ValidateImpl.nodflt ValidateImpl.explicit ValidateImpl.fresh ValidateImpl.hist_ok ValidateImpl.impl_validate_multi ValidateImpl.idref_check ValidateImpl.class_ok ValidateImpl.all_classes.
+  ValidateImpl.impl_validate ValidateImpl.impl_parse_validate ValidateImpl.erase ValidateImpl.mark_new ValidateImpl.nodflt ValidateImpl.explicit ValidateImpl.fresh ValidateImpl.hist_ok ValidateImpl.impl_validate_multi ValidateImpl.idref_check ValidateImpl.class_ok ValidateImpl.all_classes
+  RfcValid.cfg_view RfcValid.cfg_ready RfcValid.rfc_nostate RfcValid.rfc_valid_config
+  ValidateImpl.impl_validate_config ValidateImpl.impl_parse_validate_config ValidateImpl.class_ok_config.
